@@ -37,7 +37,8 @@ Definition event_print (e : cevent) : bytes :=
   | Ev_offer f => bs "offer" ++ (if f then bs "!" else [])
   | Ev_rendezvous f => bs "rendezvous" ++ (if f then bs "!" else [])
   | Ev_connected => bs "connected"
-  | Ev_failed => bs "failed"
+  | Ev_failed true => bs "failed"
+  | Ev_failed false => bs "failed?nil"
   end.
 
 Definition result_print (r : cresult * cstate) : bytes :=
@@ -47,7 +48,9 @@ Definition result_print (r : cresult * cstate) : bytes :=
   bs "res=" ++ (match res with Conn_Ok => bs "ok" | Conn_Err => bs "err" | Conn_Panic => bs "panic" end)
   ++ bs " events=" ++ list_print (map event_print (events c))
   ++ bs " rv=" ++ dec_print (N.of_nat (rv_calls c))
-  ++ bs " leak=" ++ bool_print (negb (res_released (pc c') && res_released (dc c'))).
+  ++ bs " leak=" ++ bool_print (negb (res_released (pc c') && res_released (dc c')))
+  (* the driver's listener renders every event as the client binary's logger does: term = that panicked *)
+  ++ bs " term=" ++ bool_print (negb (forallb render_ok (events c))).
 
 Definition run (args : list bytes) : bytes :=
   match args with
